@@ -1,6 +1,7 @@
 package rules
 
 import (
+	"go/types"
 	"math/big"
 	"fmt"
 	"strings"
@@ -51,6 +52,7 @@ func checkC04(c *Ctx) {
 	r.Rule("R04.4", "the spawned closure never touches the caller's key slice (keyed operations use a private copy made before the spawn)", 2)
 	r.Rule("R04.7", "the in-module backends release their shard locks on every exit (a leaked lock blocks Get's backend calls for ever; obligations of C08 R08.5)", 10)
 	r.Rule("R04.8", "waiters observe the owner's completed result: complete publication before release (obligations of C02 R02.2)", 2)
+	r.Rule("R04.9", "the constructor leaves neither the backend nor the key-lock map nil", 2)
 	r.Rule("R04.5", "builder and write in the spawned closure run under detachedContext{caller ctx}", 2)
 	r.Rule("R04.6", "the failure cache is bounded by FailedUpdateTTL (a later Get can build again) and never dereferenced when disabled", 4)
 	r.NotDecided = []string{"termination of user code", "scheduler fairness", "panicking builders"}
@@ -123,8 +125,98 @@ func checkC04(c *Ctx) {
 	// R04.4 also when the copy is taken too late: a copy made inside the goroutine reads the caller's buffer after Get returned, so
 	// the background build writes to and unlocks whatever the buffer holds by then (C09 R09.1)
 	c.borrowKinds("C09", func() { c.c09Retention() }, "R04.4", "Failover.Get:key-copied-before-go", []string{"R09.1"}, "read-in-goroutine")
+	c.c04CtorWiring("R04.9", false)
 	// R04.5: "when the caller's context is cancelled after Get returned" — the detached context's Done/Err/Deadline are its own
 	c.borrow("C06", func() { c.c06Detached() }, func(o *coreObl) (string, bool) { return "R04.5", o.Rule == "R06.4" })
+}
+
+// c04CtorWiring: Get dereferences the backend and writes into the key-lock map on every miss: a constructor that leaves either
+// nil makes the first such Get panic instead of returning. On every returning path of NewFailover/NewFailoverOf the instance's
+// backend is the configured one when that is non-nil and a freshly constructed default one otherwise, and keyLocks is a fresh map.
+func (c *Ctx) c04CtorWiring(rule string, requireUser bool) {
+	r := c.R
+	for _, sib := range siblings {
+		ctor := "New" + sib
+		_, paths, _, err := c.runFunc(ctor, pw.Policy{Inline: inlineUnexported, MaxDepth: 2})
+		if err != nil {
+			r.Unknown(rule, ctor, err.Error())
+			continue
+		}
+		n, nUser, nDefault := 0, 0, 0
+		bad := false
+		for _, p := range paths {
+			if p.Panic || len(p.Ret) == 0 {
+				continue
+			}
+			n++
+			var backend, locks *pw.Event
+			for _, ev := range p.Events {
+				if ev.Kind != pw.EvFieldWrite || ev.Field == nil {
+					continue
+				}
+				switch fname(ev.Field) {
+				case "backend":
+					backend = ev
+				case "keyLocks":
+					locks = ev
+				}
+			}
+			var bv, lv *pw.Val
+			if backend != nil {
+				bv = backend.Value
+			}
+			if locks != nil {
+				lv = locks.Value
+			}
+			if inst := pointee(p.Ret[0]); inst != nil && inst.Kind == pw.KAlloc {
+				if fv := inst.Fields["backend"]; fv != nil && bv == nil {
+					bv = fv
+				}
+				if fv := inst.Fields[actualField(sib, "keyLocks")]; fv != nil && lv == nil {
+					lv = fv
+				}
+			}
+			for bv != nil && bv.Kind == pw.KConv {
+				bv = bv.Src
+			}
+			switch {
+			case bv != nil && bv.Kind == pw.KCall && bv.Ev != nil && bv.Ev.Callee != nil && strings.HasPrefix(bv.Ev.Callee.Name(), "New"):
+				nDefault++
+			case bv != nil && bv.Kind == pw.KField && bv.Field != nil && fname(bv.Field) == "Backend":
+				if isNil, known := p.NilFact(bv); known && !isNil {
+					nUser++
+				} else if !bad {
+					bad = true
+					r.Bad(rule, ctor, "backend-may-be-nil", c.Pos(p.RetPos), "the instance keeps the configured Backend on a path that does not establish it non-nil (no default backend is created): Get dereferences nil", shortTrace(p))
+				}
+			default:
+				if !bad {
+					bad = true
+					r.Bad(rule, ctor, "backend-not-wired", c.Pos(p.RetPos), "the instance's backend is neither the configured Backend nor a freshly constructed default backend", shortTrace(p))
+				}
+			}
+			if lv == nil || lv.Kind != pw.KAlloc || lv.Type == nil {
+				if !bad {
+					bad = true
+					r.Bad(rule, ctor, "keylocks-not-made", c.Pos(p.RetPos), "the key-lock map is not created: the first Get that has to build panics on the assignment to a nil map", shortTrace(p))
+				}
+			} else if _, isMap := lv.Type.Underlying().(*types.Map); !isMap && !bad {
+				bad = true
+				r.Bad(rule, ctor, "keylocks-not-made", c.Pos(p.RetPos), "the key-lock map is not a fresh map", shortTrace(p))
+			}
+		}
+		if requireUser && n > 0 && nUser == 0 && !bad {
+			bad = true
+			r.Bad(rule, ctor, "configured-backend-ignored", c.declPos(ctor), "no path keeps the configured Backend: the Failover reads from and writes to a backend of its own instead of the one it was given", nil)
+		}
+		if n == 0 || nDefault == 0 || requireUser && nUser == 0 {
+			if !bad {
+				r.Unknown(rule, ctor, fmt.Sprintf("vacuous: %d returning paths, %d keep the configured backend, %d create the default one", n, nUser, nDefault))
+			}
+		} else if !bad {
+			r.OK(rule, ctor, fmt.Sprintf("%d returning paths: configured backend kept when non-nil (%d), default created otherwise (%d), key-lock map made", n, nUser, nDefault))
+		}
+	}
 }
 
 func (c *Ctx) c04Sibling(fo *FO) {
